@@ -11,27 +11,27 @@ def _c22_nontrivial(req, out):
 
 CFG = {
     "level": "proof",
-    "level_text": "Lean 4 theorems: strip_quotes_and_decode inverts quote_csv_field on every byte string (decode_quote_field); the "
-                  "formatted row splits back into exactly its quoted fields (fields_of_formatted); csv_round_trip_partial / "
-                  "csv_round_trip_unterminated_partial: for every non-empty array of strings and every admissible delimiter the "
-                  "printed line (with or without the final newline) reads back as exactly that array — over the quote-aware "
-                  "splitting SPEC of C21; PARTIAL: the lift to the DsvRows/DsvFields cursor model needs C21 rows_eq (not proved); "
-                  "the driver cross-checks cursor model = spec = [xs] on every request. Tie: the real CLI pipe.",
+    "level_text": "Lean 4 theorems, full statement: csv_round_trip / csv_round_trip_unterminated / csv_comma_round_trip — for every "
+                  "non-empty array of strings and every admissible delimiter the line printed by -r @dsv(d) (@csv for ','), with or "
+                  "without the final newline, read back by the real reader model (DSV index + DsvRows/DsvFields cursor iteration over "
+                  "rank/select + strip_quotes_and_decode) yields exactly that array; via decode_quote_field, fields_of_formatted and "
+                  "C21 fields_eq (readDsv_eq_spec). Tie: the real CLI pipe, formatted text and rows read back diffed against the model.",
     "level_note": "Strings are modelled as their UTF-8 bytes (from_utf8_lossy is the identity on valid UTF-8; invalid input is outside "
                   "the model). Only arrays of strings are modelled (numbers/null/bool elements of @csv are outside C22). The CLI "
                   "tie feeds JSON arrays to `succinctly jq -r '@csv'|'@dsv(\"d\")'`, pipes stdout unchanged into "
                   "`succinctly jq --input-dsv d -c 'map(explode)'`; sentinel arrays delimit the batched cases.",
-    "technique": "Lean 4 proof of the format/read round trip over the splitting spec; CLI pipe "
+    "technique": "Lean 4 proof of the format/read round trip through the cursor reader model; CLI pipe "
                  "(`jq -r @csv|@dsv(d)` into `jq --input-dsv d`) diffed against the compiled model",
     "needs_cli": True,
     "variants": [{"features": [], "env": {"SV_CLI": os.path.join(_ROOT, ".build", "target-cli", "release", "succinctly")}}],
     "lean_modules": ["SuccinctlyVerif.Props.C22"],
-    "required_theorems": ["SV.Props.C22.csv_round_trip_partial", "SV.Props.C22.decode_quote_field"],
-    "lean_files": ["SuccinctlyVerif/Props/C22.lean", "SuccinctlyVerif/Proof/DsvCsv.lean", "SuccinctlyVerif/Model/DsvCsv.lean", "SuccinctlyVerif/Model/DsvNav.lean", "SuccinctlyVerif/Spec/Dsv.lean"],
+    "required_theorems": ["SV.Props.C22.csv_round_trip", "SV.Props.C22.csv_round_trip_unterminated", "SV.Props.C22.decode_quote_field"],
+    "allow_bv_decide": True,
+    "lean_files": ["SuccinctlyVerif/Props/C22.lean", "SuccinctlyVerif/Proof/DsvCsv.lean", "SuccinctlyVerif/Proof/DsvNavModel.lean", "SuccinctlyVerif/Proof/DsvRank.lean", "SuccinctlyVerif/Model/DsvCsv.lean", "SuccinctlyVerif/Model/DsvNav.lean", "SuccinctlyVerif/Spec/Dsv.lean"],
     "generated": ["common:"],
     "nontrivial": _c22_nontrivial,
     "rule": "distinct request lines whose array has at least one non-empty string",
-    "explanation": "Lean theorems: format/read round trip over the splitting spec for all arrays (>=1 strings) and admissible delimiters; "
+    "explanation": "Lean theorems: format/read round trip through the cursor reader for all arrays (>=1 strings) and admissible delimiters; "
                    "correspondence: `succinctly jq -r @csv / @dsv(d)` piped to `succinctly jq --input-dsv d` on arrays of 1..20 strings "
                    "with delimiters, quotes, CR/LF, spaces, non-ASCII, empties, for every printable ASCII delimiter except the quote "
                    "(+ tab, 0x01; inadmissible quote/LF/CR rejected), formatted text and rows read back diffed against the model",
